@@ -6,6 +6,7 @@ import importlib.util
 import inspect
 import math
 import operator
+import os
 import socket
 import sys
 import warnings
@@ -42,8 +43,12 @@ def load(path: Path, *, cache: bool = False) -> Any:
 def dump(obj: Any, path: Path) -> None:
     """Dump an object to a path using cloudpickle."""
     path.parent.mkdir(parents=True, exist_ok=True)
-    with path.open("wb") as f:
+    # Write to a temporary file and rename it into place, so that an interrupted process
+    # never leaves a truncated file behind (the presence of the file marks completion).
+    tmp = path.with_name(f".{path.name}.{os.getpid()}.tmp")
+    with tmp.open("wb") as f:
         cloudpickle.dump(obj, f)
+    os.replace(tmp, path)
 
 
 def _get_cache_key(path: Path) -> tuple:
